@@ -181,6 +181,14 @@ func c18Explore(shard, nshards int, tier string) c18Result {
 		ops := c18Ops(v)
 		infos := make([]opInfo, len(ops))
 		// step 1 is cheap: every shard does it for the values it touches, only shard (vi % n) reports
+		// One unjudged call of every operation first: initialisation that happens once per process or per value
+		// (a table built behind sync.Once, a memo filled on first use) is not what "read-only operations do not
+		// mutate shared state" is about - the steady state is. Whether that first call is SAFE under contention
+		// is decided by the cold phase of the free-running race pass (fresh values, no call before the goroutines
+		// start), where an unsynchronised first write is a reported data race and a synchronised one is not.
+		for _, op := range ops {
+			core.Guard(func() { op.run() })
+		}
 		for oi, op := range ops {
 			r0, st, mut, pmsg := soloAnalysis(v, op, vi%nshards == shard)
 			infos[oi] = opInfo{r0, st, mut}
